@@ -142,8 +142,9 @@ inline void gen_problem_coeffs(ByteSource& s, Problem& p) {
   int d = p.d;
   // the fixed offsets keep every coefficient non-zero even when the byte stream is exhausted
   int salt = 0;
-  auto dense = [&](double sc) { std::vector<double> c(d * d); for (auto& x : c) { salt++; x = sc * (0.85 * s.dense() + 0.15 * std::sin(1.0 + 1.7 * salt)); } return c; };
-  auto diag = [&](double sc) { std::vector<double> c(d * d, 0.0); for (int k = 1; k < d; k++) { salt++; c[d * k + k] = sc * (0.85 * s.dense() + 0.15 * std::sin(1.0 + 1.7 * salt)); } c[0] = sc * s.dense(); return c; };
+  auto cheap = [&]() { return (double)((int)s.u16() - 32768) / 32768.0; };  // two bytes per coefficient
+  auto dense = [&](double sc) { std::vector<double> c(d * d); for (auto& x : c) { salt++; x = sc * (0.85 * cheap() + 0.15 * std::sin(1.0 + 1.7 * salt)); } return c; };
+  auto diag = [&](double sc) { std::vector<double> c(d * d, 0.0); for (int k = 1; k < d; k++) { salt++; c[d * k + k] = sc * (0.85 * cheap() + 0.15 * std::sin(1.0 + 1.7 * salt)); } c[0] = sc * cheap(); return c; };
   p.Ha = dense(1.0); p.Hb = dense(0.7); p.Ga = dense(0.4); p.Gb = dense(0.3); p.Ra = dense(1.0); p.Rb = dense(0.6); p.Rc = dense(0.5);
   p.D1 = diag(1.5); p.D2 = diag(0.5); p.Cd = diag(0.6);
   p.w = 0.7 + s.unif01(); p.w1 = 0.5 + s.unif01(); p.w2 = 1.0 + s.unif01(); p.f0 = 0.5 + s.unif01(); p.f1 = 0.2 + 0.6 * s.unif01();
